@@ -44,7 +44,7 @@ XQUICK = {"imports-only": (1, 4), "extends-only": (1,)}
 # history shards (library, order index): orders that start with a `within` file
 HIST_QUICK = [("pkgconst", 1, 1), ("nested", 5, 0)]
 CONCRETE_LIBS = LIBNAMES + XLIBS + ["prefixes"]
-WALK_QUICK = ["plain", "placeholder-only", "nested", "imports-only", "deep"]
+WALK_QUICK = ["plain", "placeholder-only", "nested", "imports-only", "pkgconst"]
 WALK_THOROUGH = LIBNAMES + XLIBS
 LIT_A = (7001, 7002, 7003, 7004)  # the placeholders themselves
 LIT_B = (8001, 8002, 8003, 8004)
